@@ -4,6 +4,7 @@ import (
 	"fmt"
 	"math"
 	"net/http"
+	"runtime"
 	"sort"
 	"strconv"
 	"strings"
@@ -332,7 +333,13 @@ func runFlagFuzz(t *simrt.Tape, keep bool) simrt.Outcome {
 	}
 	sort.Strings(names)
 	for _, n := range names {
+		var m0, m1 runtime.MemStats
+		runtime.ReadMemStats(&m0)
 		r.guard(n+" parser on "+strconv.Quote(s), parsers[n])
+		runtime.ReadMemStats(&m1)
+		if a := m1.TotalAlloc - m0.TotalAlloc; a > 8<<20+4096*uint64(len(s)) {
+			r.fail("C16.memory", map[string]string{"parser": n}, "%s parser allocated %d bytes for the %d byte value %q", n, a, len(s), s)
+		}
 		r.stats["probe.flag-parser."+n]++
 	}
 	_ = math.Pi
